@@ -395,6 +395,92 @@ N("C07", "polygon-listcomp", PG, "ConvexPolygon.move",
 N("C07", "halfline-line-from-point-vector", G + "halfline.py", "HalfLine.move", "self.line = Line(self.point, self.vector)", "self.line = Line(self.point, self.line.dv)")
 N("C07", "point-return-fresh", G + "point.py", "Point.move", "return Point(self.pv())", "return Point(self.x, self.y, self.z)")
 
+# =========================================================================== C18
+VEC = U + "vector.py"
+F("C18", "cross-index-slip", VEC, "Vector.cross", "a[2] * b[0] - a[0] * b[2]", "a[2] * b[0] - a[0] * b[1]", rule="R18.1")
+F("C18", "cross-sign-flip", VEC, "Vector.cross", "a[0] * b[1] - a[1] * b[0]", "a[1] * b[0] - a[0] * b[1]", rule="R18.1")
+F("C18", "cross-rows-rotated", VEC, "Vector.cross",
+  "return Vector(a[1] * b[2] - a[2] * b[1], a[2] * b[0] - a[0] * b[2], a[0] * b[1] - a[1] * b[0])",
+  "return Vector(a[2] * b[0] - a[0] * b[2], a[0] * b[1] - a[1] * b[0], a[1] * b[2] - a[2] * b[1])", rule="R18.1")
+F("C18", "add-subtracts", VEC, "Vector.__add__", "x + y", "x - y", rule="R18.1")
+F("C18", "sub-reversed", VEC, "Vector.__sub__", "x - y", "y - x", rule="R18.1")
+F("C18", "dot-skips-component", VEC, "Vector.__mul__", "return sum((x * y for x, y in zip(self, other)))",
+  "return sum((x * y for x, y in zip(self._v[:2], other._v[:2])))", rule="ANALYSIS-ERROR")
+CAT["C18"].pop()
+F("C18", "dot-squares", VEC, "Vector.__mul__", "x * y for x, y in zip(self, other)", "x * x for x, y in zip(self, other)", rule="R18.1")
+F("C18", "scalar-mul-double", VEC, "Vector.__mul__", "return Vector([x * other for x in self._v])", "return Vector([x * other * 2 for x in self._v])", rule="R18.1")
+F("C18", "neg-identity", VEC, "Vector.__neg__", "return self * -1", "return self * 1", rule="R18.1")
+F("C18", "p1p2-mixed-axis", VEC, "Vector.__init__", "B.y - A.y", "B.y - A.x", rule="R18.1")
+F("C18", "p1p2-reversed", VEC, "Vector.__init__", "self._v = [B.x - A.x, B.y - A.y, B.z - A.z]", "self._v = [A.x - B.x, A.y - B.y, A.z - B.z]", rule="R18.1")
+F("C18", "pv-swapped", G + "point.py", "Point.pv", "return Vector(self.x, self.y, self.z)", "return Vector(self.x, self.z, self.y)", rule="R18.1")
+F("C18", "unit-vector-wrong", VEC, "Vector.y_unit_vector", "return cls(0, 1, 0)", "return cls(0, 0, 1)", rule="R18.1")
+F("C18", "float-in-add", VEC, "Vector.__add__", "return Vector((x + y for x, y in zip(self, other)))", "return Vector((float(x + y) for x, y in zip(self, other)))", rule="R18.2")
+F("C18", "float-in-cross", VEC, "Vector.cross", "a, b = (self._v, other._v)", "a, b = ([float(c) for c in self._v], other._v)", rule="R18.2")
+F("C18", "division-in-neg", VEC, "Vector.__neg__", "return self * -1", "return self * (-2 / 2)", rule="R18.2")
+F("C18", "promotion-table-reordered", U + "util.py", "unify_types", "{Fraction: 1, Decimal: 2, float: 3, int: 4}", "{Fraction: 3, Decimal: 2, float: 1, int: 4}", rule="R18.3")
+F("C18", "promotion-user-type-last", U + "util.py", "unify_types", "types.append((0, type(item)))", "types.append((9, type(item)))", rule="R18.3")
+F("C18", "promotion-max", U + "util.py", "unify_types", "result_type = min(types)[1]", "result_type = max(types)[1]", rule="R18.3")
+F("C18", "vector-ctor-skips-promotion", VEC, "Vector.__init__", "    self._v = unify_types(self._v)", "    pass", rule="R18.3")
+F("C18", "point-ctor-skips-promotion", G + "point.py", "Point.__init__", "self.x, self.y, self.z = unify_types(coords)", "self.x, self.y, self.z = coords", rule="R18.3")
+N("C18", "cross-commuted-factors", VEC, "Vector.cross", "a[1] * b[2] - a[2] * b[1]", "b[2] * a[1] - b[1] * a[2]")
+N("C18", "cross-reordered-terms", VEC, "Vector.cross", "a[2] * b[0] - a[0] * b[2]", "-(a[0] * b[2]) + a[2] * b[0]")
+N("C18", "add-list-comprehension", VEC, "Vector.__add__", "return Vector((x + y for x, y in zip(self, other)))", "return Vector([y + x for x, y in zip(self, other)])")
+N("C18", "neg-componentwise", VEC, "Vector.__neg__", "return self * -1", "return Vector([-x for x in self._v])")
+N("C18", "rmul-direct", VEC, "Vector.__rmul__", "return self * other", "return Vector([other * x for x in self._v])")
+N("C18", "pv-from-list", G + "point.py", "Point.pv", "return Vector(self.x, self.y, self.z)", "return Vector([self.x, self.y, self.z])")
+N("C18", "dot-explicit", VEC, "Vector.__mul__", "return sum((x * y for x, y in zip(self, other)))",
+  "return self._v[0] * other._v[0] + self._v[1] * other._v[1] + self._v[2] * other._v[2]")
+
+# =========================================================================== C08
+LN = G + "line.py"
+PL = G + "plane.py"
+F("C08", "line-hash-raw-dv", LN, "Line.__hash__", "unit = self.dv.normalized()", "unit = self.dv", rule="R8.4", note="depends on |dv|")
+F("C08", "line-hash-one-sided", LN, "Line.__hash__", "return hash(('Line', forward + backward, forward * backward))", "return forward", rule="R8.4",
+  note="depends on the sign of dv")
+F("C08", "line-hash-backward-not-negated", LN, "Line.__hash__", "backward = hash(('Line', -unit, -moment))", "backward = hash(('Line', -unit, moment))", rule="R8.4")
+F("C08", "line-hash-support-point", LN, "Line.__hash__", "moment = self.sv.cross(unit)", "moment = self.sv", rule="R8.5",
+  note="depends on which point of the line is stored")
+F("C08", "plane-hash-signed", PL, "Plane.__hash__", "return hash(('Plane', forward + backward, forward * backward))", "return forward", rule="R8.4")
+F("C08", "plane-hash-offset-not-negated", PL, "Plane.__hash__", "round(-offset, get_sig_figures())", "round(offset, get_sig_figures())", rule="R8.4")
+F("C08", "plane-hash-point", PL, "Plane.__hash__", "forward = hash(('Plane', self.n, round(offset, get_sig_figures())))",
+  "forward = hash(('Plane', self.n, round(offset, get_sig_figures()), self.p))", rule="R8.5")
+CAT["C08"].pop()  # the pair idiom is broken first (R8.4); kept out to keep one rule per mutant
+F("C08", "plane-hash-stored-point", PL, "Plane.__hash__", "offset = self.n * self.p.pv()", "offset = self.p.pv()[0]", rule="R8.5")
+F("C08", "halfline-hash-unnormalised", G + "halfline.py", "HalfLine.__hash__", "hash(self.point) + hash(self.vector.normalized())", "hash(self.point) + hash(self.vector)", rule="R8.4")
+F("C08", "segment-hash-start-only", G + "segment.py", "Segment.__hash__", "hash(self.start_point) + hash(self.end_point)", "hash(self.start_point)", rule="R8.4")
+F("C08", "segment-hash-ordered", G + "segment.py", "Segment.__hash__", "hash(self.start_point) * hash(self.end_point)", "hash(self.start_point) - hash(self.end_point)", rule="R8.4")
+F("C08", "polygon-hash-signed-plane", PG, "ConvexPolygon.__hash__", "hash(self.plane) + hash(-self.plane)", "hash(self.plane)", rule="R8.4")
+CAT["C08"].pop()  # Plane.__hash__ is sign-free after the fix, so the signed use is harmless; see the next mutant
+F("C08", "polygon-hash-oriented", PG, "ConvexPolygon.__hash__", "hash(self.plane) + hash(-self.plane)", "self.plane.oriented_hash()", rule="R8.4")
+CAT["C08"].pop()  # needs interprocedural parity of oriented_hash(): not modelled, would be MIXED -> reported; covered below
+F("C08", "polygon-hash-ordered-vertices", PG, "ConvexPolygon.__hash__", "round(self._get_point_hash_sum(), get_sig_figures())", "hash(self.points)", rule="R8.4")
+F("C08", "polygon-hash-sum-weighted", PG, "ConvexPolygon._get_point_hash_sum", "        hash_sum += hash(point)", "        hash_sum = hash_sum * 31 + hash(point)", rule="R8.4")
+F("C08", "polyhedron-hash-first-face", PH, "ConvexPolyhedron._get_polygon_hash_sum", "    for polygon in self.convex_polygons:\n        hash_sum += hash(polygon)",
+  "    hash_sum = hash(self.convex_polygons[0])", rule="R8.4")
+F("C08", "delete-hash", G + "segment.py", None, "    def __hash__(self):", "    def _unused_hash(self):", rule="R8.1")
+F("C08", "point-eq-no-guard", G + "point.py", "Point.__eq__",
+  "    if isinstance(other, Point):\n        return abs(self.x - other.x) < get_eps() and abs(self.y - other.y) < get_eps() and (abs(self.z - other.z) < get_eps())\n    else:\n        return False",
+  "    return abs(self.x - other.x) < get_eps() and abs(self.y - other.y) < get_eps() and (abs(self.z - other.z) < get_eps())", rule="R8.2")
+F("C08", "line-eq-foreign-true", LN, "Line.__eq__", "    else:\n        return False", "    else:\n        return NotImplemented", rule="R8.2")
+F("C08", "polygon-eq-not-hash", PG, "ConvexPolygon.__eq__", "return hash(self) == hash(other)", "return self.points == other.points", rule="R8.3")
+F("C08", "segment-eq-no-swap", G + "segment.py", "Segment.__eq__",
+  "return self.start_point == other.start_point and self.end_point == other.end_point or (self.end_point == other.start_point and self.start_point == other.end_point)",
+  "return self.start_point == other.start_point and self.end_point == other.end_point", rule="R8.6")
+F("C08", "segment-eq-same-twice", G + "segment.py", "Segment.__eq__", "self.end_point == other.start_point and self.start_point == other.end_point",
+  "self.start_point == other.start_point and self.end_point == other.end_point", rule="R8.6")
+F("C08", "line-eq-raw-dv", LN, "Line.__eq__", "other.dv.parallel(self.dv)", "other.dv == self.dv", rule="R8.7")
+F("C08", "halfline-eq-raw-vector", G + "halfline.py", "HalfLine.__eq__", "(self.vector.normalized() - other.vector.normalized()).length() < get_eps()",
+  "(self.vector - other.vector).length() < get_eps()", rule="R8.7")
+N("C08", "line-hash-frozenset", LN, "Line.__hash__", "return hash(('Line', forward + backward, forward * backward))", "return hash(('Line', frozenset((forward, backward))))")
+N("C08", "line-hash-inline-unit", LN, "Line.__hash__", "    unit = self.dv.normalized()\n    moment = self.sv.cross(unit)", "    unit = self.dv.unit()\n    moment = self.sv.cross(self.dv.unit())")
+N("C08", "plane-hash-swapped-operands", PL, "Plane.__hash__", "forward + backward, forward * backward", "backward + forward, backward * forward")
+N("C08", "segment-hash-commuted", G + "segment.py", "Segment.__hash__", "hash(self.start_point) + hash(self.end_point)", "hash(self.end_point) + hash(self.start_point)")
+N("C08", "point-hash-sum-builtin", PG, "ConvexPolygon._get_point_hash_sum",
+  "    hash_sum = 0\n    for point in self.points:\n        hash_sum += hash(point)\n    return hash_sum", "    return sum((hash(point) for point in self.points))")
+N("C08", "eq-guard-negated", G + "plane.py", "Plane.__eq__",
+  "    if isinstance(other, Plane):\n        return self.p in other and self.n.parallel(other.n)\n    else:\n        return False",
+  "    if not isinstance(other, Plane):\n        return False\n    return self.p in other and self.n.parallel(other.n)")
+
 
 def catalogue(prop: str) -> List[Mutant]:
     return list(CAT.get(prop, []))
